@@ -1260,9 +1260,9 @@ namespace chaiscript {
           : AST_Node_Impl<T>(std::move(t_ast_node_text), AST_Node_Type::Try, std::move(t_loc), std::move(t_children)) {
       }
 
-      Boxed_Value handle_exception(const chaiscript::detail::Dispatch_State &t_ss, const Boxed_Value &t_except) const {
-        Boxed_Value retval;
-
+      /// Evaluates the first catch clause that matches t_except.
+      /// \returns true if a clause ran (its value is stored in t_retval), false if no clause matched
+      bool handle_exception(const chaiscript::detail::Dispatch_State &t_ss, const Boxed_Value &t_except, Boxed_Value &t_retval) const {
         size_t end_point = this->children.size();
         if (this->children.back()->identifier == AST_Node_Type::Finally) {
           assert(end_point > 0);
@@ -1274,32 +1274,26 @@ namespace chaiscript {
 
           if (catch_block.children.size() == 1) {
             // No variable capture
-            retval = catch_block.children[0]->eval(t_ss);
-            break;
-          } else if (catch_block.children.size() == 2 || catch_block.children.size() == 3) {
+            t_retval = catch_block.children[0]->eval(t_ss);
+            return true;
+          } else if (catch_block.children.size() == 2) {
             const auto name = Arg_List_AST_Node<T>::get_arg_name(*catch_block.children[0]);
 
             if (dispatch::Param_Types(
                     std::vector<std::pair<std::string, Type_Info>>{Arg_List_AST_Node<T>::get_arg_type(*catch_block.children[0], t_ss)})
                     .match(Function_Params{t_except}, t_ss.conversions())
                     .first) {
+              // Variable capture
               t_ss.add_object(name, t_except);
-
-              if (catch_block.children.size() == 2) {
-                // Variable capture
-                retval = catch_block.children[1]->eval(t_ss);
-                break;
-              }
+              t_retval = catch_block.children[1]->eval(t_ss);
+              return true;
             }
           } else {
-            if (this->children.back()->identifier == AST_Node_Type::Finally) {
-              this->children.back()->children[0]->eval(t_ss);
-            }
             throw exception::eval_error("Internal error: catch block size unrecognized");
           }
         }
 
-        return retval;
+        return false;
       }
 
       Boxed_Value eval_internal(const chaiscript::detail::Dispatch_State &t_ss) const override {
@@ -1307,26 +1301,41 @@ namespace chaiscript {
 
         chaiscript::eval::detail::Scope_Push_Pop spp(t_ss);
 
+        const bool has_finally = this->children.back()->identifier == AST_Node_Type::Finally;
+
         try {
-          retval = this->children[0]->eval(t_ss);
-        } catch (const exception::eval_error &e) {
-          retval = handle_exception(t_ss, Boxed_Value(std::ref(e)));
-        } catch (const std::runtime_error &e) {
-          retval = handle_exception(t_ss, Boxed_Value(std::ref(e)));
-        } catch (const std::out_of_range &e) {
-          retval = handle_exception(t_ss, Boxed_Value(std::ref(e)));
-        } catch (const std::exception &e) {
-          retval = handle_exception(t_ss, Boxed_Value(std::ref(e)));
-        } catch (Boxed_Value &e) {
-          retval = handle_exception(t_ss, e);
+          try {
+            retval = this->children[0]->eval(t_ss);
+          } catch (const exception::eval_error &e) {
+            if (!handle_exception(t_ss, Boxed_Value(std::ref(e)), retval)) {
+              throw;
+            }
+          } catch (const std::runtime_error &e) {
+            if (!handle_exception(t_ss, Boxed_Value(std::ref(e)), retval)) {
+              throw;
+            }
+          } catch (const std::out_of_range &e) {
+            if (!handle_exception(t_ss, Boxed_Value(std::ref(e)), retval)) {
+              throw;
+            }
+          } catch (const std::exception &e) {
+            if (!handle_exception(t_ss, Boxed_Value(std::ref(e)), retval)) {
+              throw;
+            }
+          } catch (Boxed_Value &e) {
+            if (!handle_exception(t_ss, e, retval)) {
+              throw;
+            }
+          }
         } catch (...) {
-          if (this->children.back()->identifier == AST_Node_Type::Finally) {
+          // the exception leaves this try statement: no clause matched it, or a catch block threw
+          if (has_finally) {
             this->children.back()->children[0]->eval(t_ss);
           }
           throw;
         }
 
-        if (this->children.back()->identifier == AST_Node_Type::Finally) {
+        if (has_finally) {
           retval = this->children.back()->children[0]->eval(t_ss);
         }
 
